@@ -170,6 +170,10 @@ def run(F, rep, tier):
         guard_rule(F, G, rep, fn)
     version_refusals(F, G, rep)
     who_may_call(F, G, rep)
+    # "for every game": the verdict is a function of the game's version alone, not of earlier calls
+    from props import C18
+    amb = C18.ambient_state(F, G, G.reachable([GUARD]))
+    rep.ob("guard.stateless", not amb, GUARD, "ambient-state", "the version guard keeps state across calls (%s): a refusal could depend on what was checked before" % "; ".join("%s in %s @ %s" % (c, reach.short(o), sp) for o, c, sp in amb[:3]))
     # a version-dependent crash in the writers is a refusal on version grounds: L5
     M = model.Model(F, rep, want=("with_capacity", "into"))
     model.rule_L5(rep, M)
